@@ -40,16 +40,20 @@ Theorem C03_only_endblock_removes : forall s o, idx_inv s -> wf_op o = true -> f
 Proof. exact step_keeps. Qed.
 Print Assumptions C03_only_endblock_removes.
 
-(* The three state invariants (index invariant, aggregates + sorted row stores, non-negativity) hold in every state
-   reachable by well-formed operations with fresh record keys; the empty ledger satisfies them. *)
-Theorem C03_reachable_invariants : forall ops s0, inv_all s0 -> hist_ok s0 ops = true -> inv_all (run ops s0).
+(* The state invariants (index invariant, aggregates + sorted row stores, non-negativity, and "no native-token record":
+   the release theorems below are about the assets that have staker rows; a completed native-token undelegation is paid
+   from the bank escrow, C01_escrow) hold in every state reachable by well-formed operations with fresh record keys that
+   do not undelegate the native token; the empty ledger satisfies them. *)
+Theorem C03_reachable_invariants : forall ops s0, inv_all s0 -> hist_ok s0 ops = true -> forallb lst_op ops = true ->
+  inv_all (run ops s0).
 Proof. exact run_inv_all. Qed.
 Print Assumptions C03_reachable_invariants.
 
 (* Aggregates: in every reachable state each staker row's, operator pool's and delegation row's pending figure equals
-   the sum of the amounts of the live records that name it (Prop form for every key, and the boolean the monitor
-   evaluates on the implementation's stores). *)
-Theorem C03_aggregates : forall ops s0, inv_all s0 -> hist_ok s0 ops = true ->
+   the sum of the amounts of the live records that name it (native-token records count towards the operator pool and
+   the delegation row only: the native token has no staker rows). Prop form for every key, and the boolean the monitor
+   evaluates on the implementation's stores; native-token histories included. *)
+Theorem C03_aggregates : forall ops s0, idx_inv s0 -> J s0 -> hist_ok s0 ops = true ->
   agg_inv (run ops s0) /\ aggregates_rows_d (dump_of (run ops s0)) = true.
 Proof. exact aggregates_all. Qed.
 Print Assumptions C03_aggregates.
@@ -91,16 +95,30 @@ Theorem C03_end_block_credit : forall s k, inv_all s ->
 Proof. exact end_block_credit. Qed.
 Print Assumptions C03_end_block_credit.
 
-(* Acceptance is NOT unconditional: after two slashes a staker whose reported position is 56 cannot undelegate 56
-   (55 is accepted); known finding C03-accept-deep-slash, replayed on the real keepers. *)
-Theorem C03_accept_refuted :
+(* Regression witness for the repaired acceptance defect (fix 56b99a6): in the deep-slash state the staker's reported position
+   is 56; the request to undelegate 56 is accepted and records 56; 57 is rejected. *)
+Theorem C03_accept_deep_slash_witness :
   let s := run accept_ops accept_s0 in
   hist_ok accept_s0 accept_ops = true /\
   position_d (dump_of s) "s2" "a0" "o2" = 56 /\
-  snd (step s (Undelegate "s2" "a0" "o2" 56 9 "t9")) = RErr /\
-  snd (step s (Undelegate "s2" "a0" "o2" 55 9 "t9")) = ROk.
+  snd (step s (Undelegate "s2" "a0" "o2" 56 9 "t9")) = ROk /\
+  option_map ur_amt (sget (ur (fst (step s (Undelegate "s2" "a0" "o2" 56 9 "t9")))) "o2/0x4/0x9/t9") = Some 56 /\
+  snd (step s (Undelegate "s2" "a0" "o2" 57 9 "t9")) = RErr /\
+  option_map dg_sh (sget (dg s) "s2/a0/o2") = Some 470042106230190932613 /\
+  option_map oa_tsh (sget (oa s) "o2/a0") = Some 548665042106230190932613 /\
+  option_map oa_amt (sget (oa s) "o2/a0") = Some 65367.
 Proof. exact accept_witness. Qed.
-Print Assumptions C03_accept_refuted.
+Print Assumptions C03_accept_deep_slash_witness.
+
+(* ... and the check as it was BEFORE the repair ([share_check false]) refused exactly that request on exactly that pool:
+   position 56, largest accepted amount 55. *)
+Theorem C03_accept_prerepair_refuted :
+  let dsh := 470042106230190932613 in let tsh := 548665042106230190932613 in let T := 65367 in
+  tokens_from_shares dsh tsh T = Some 56 /\ xmax dsh tsh T = 55 /\
+  share_check false dsh tsh T 56 = false /\ share_check false dsh tsh T 55 = true /\
+  share_check true dsh tsh T 56 = true /\ share_check true dsh tsh T 57 = false.
+Proof. exact prerepair_witness. Qed.
+Print Assumptions C03_accept_prerepair_refuted.
 
 (* Released at the first eligible block end, not before, exactly once: an unheld record that is stored under its key,
    listed in the pending index and whose nonce no other live record uses (so the index-collision defect cannot hit it)
@@ -116,7 +134,8 @@ Theorem C03_first_eligible_block : forall n s r, inv_all s -> sget (ur s) (rkey 
 Proof. exact first_eligible_block. Qed.
 Print Assumptions C03_first_eligible_block.
 
-(* The full acceptance statement (kept visible; it is FALSE of the faithful model, see C03_accept_refuted). *)
+(* The full acceptance statement (kept visible; not proved: beyond the share check it needs C02's share-sum and staker-list
+   invariants; its share-check part is C03_accept_within_position). *)
 Definition C03_accept_full : Prop := forall s st a op x n tx,
   inv_all s -> mem op (operators s) = true -> wf_op (Undelegate st a op x n tx) = true ->
   fresh_op s (Undelegate st a op x n tx) = true -> 0 < x -> x <= position_d (dump_of s) st a op ->
@@ -132,6 +151,30 @@ Theorem C03_accept_partial : forall dsh tsh T x t,
   exists sh0, shares_from_tokens tsh x T = Some sh0 /\ sh0 <= dsh.
 Proof. exact share_check_ok. Qed.
 Print Assumptions C03_accept_partial.
+
+(* Exact characterisation of the share check of ValidateUndelegationAmount, for every pool and amount: on the tree before
+   fix 56b99a6 ([share_check false]) a request of x was let through iff x <= xmax = floor(((share+1)*totalAmount - 1) / totalShare); with the
+   whole-position repair iff x <= max(xmax, reported position). *)
+Theorem C03_accept_exact : forall dsh tsh T x pos, 0 < T -> 0 < tsh -> 0 <= dsh -> 0 < x -> tokens_from_shares dsh tsh T = Some pos ->
+  (share_check false dsh tsh T x = true <-> x <= xmax dsh tsh T) /\
+  (share_check true dsh tsh T x = true <-> x <= Z.max (xmax dsh tsh T) pos).
+Proof. exact share_check_exact. Qed.
+Print Assumptions C03_accept_exact.
+
+(* Hence "every amount within the reported position passes": always with the repair; without it iff position <= xmax. *)
+Theorem C03_accept_within_position : forall dsh tsh T pos, 0 < T -> 0 < tsh -> 0 <= dsh -> tokens_from_shares dsh tsh T = Some pos ->
+  (forall x, 0 < x -> x <= pos -> share_check true dsh tsh T x = true) /\
+  ((forall x, 0 < x -> x <= pos -> share_check false dsh tsh T x = true) <-> (pos <= 0 \/ pos <= xmax dsh tsh T)).
+Proof. exact within_position. Qed.
+Print Assumptions C03_accept_within_position.
+
+(* The check is the model's real decision: when it fails UndelegateFrom is rejected. *)
+Theorem C03_accept_check_necessary : forall s st a op x n tx d o,
+  sget (dg s) (dg_key st a op) = Some d -> sget (oa s) (oa_key op a) = Some o ->
+  share_check true (dg_sh d) (oa_tsh o) (oa_amt o) x = false -> undelegate s st a op x n tx = None.
+Proof. exact undelegate_needs_check. Qed.
+Print Assumptions C03_accept_check_necessary.
+
 
 (* The three indexes are NOT mutually inverse: two accepted undelegations with the same nonce in one block share one
    pending-index key; one record is never released (known finding C03-pending-index-collision). *)
@@ -162,7 +205,7 @@ Example ex_first_hyps :
   sget (pidx ex_first_s) (pkey ex_first_r) = Some (rkey ex_first_r) /\ hold_count ex_first_s (rkey ex_first_r) = 0 /\
   ur_cn ex_first_r = height ex_first_s + Z.of_nat 10 /\ uniq_nonce ex_first_s ex_first_r.
 Proof.
-  split; [apply run_inv_all; [apply empty_inv_all; discriminate | vm_compute; reflexivity]|].
+  split; [apply run_inv_all; [apply empty_inv_all; discriminate | vm_compute; reflexivity | vm_compute; reflexivity]|].
   repeat split; try (vm_compute; reflexivity).
   intros k r' G _.
   assert (ur ex_first_s = [(rkey ex_first_r, ex_first_r)]) as E by (vm_compute; reflexivity).
